@@ -129,7 +129,12 @@ fn outcome_of_inner(res: Result<usize, error::Token>) -> Outcome {
 /// installs the simulator's seams for one evaluation: frozen virtual clock and the hash key
 pub fn install(hash_key: u64) {
     biscuit_auth::verif::set_hash_key(hash_key);
-    biscuit_auth::verif::install_clock(biscuit_auth::verif::ClockScript::default());
+    // the clock rate varies with the hash key; one key in four gets a clock too coarse to see the
+    // evaluation at all (execution time 0, as with the clamped timers of a browser), the others
+    // see it advance at every unit of work. A restored snapshot takes different paths in the two
+    // cases (an execution time of 0 reads as "not evaluated yet").
+    let per_tick_ns = (hash_key >> 3) % 4;
+    biscuit_auth::verif::install_clock(biscuit_auth::verif::ClockScript { per_tick_ns, stall_at: None });
 }
 
 pub fn build_authorizer(
